@@ -29,6 +29,7 @@ import (
 
 	"github.com/oasisprotocol/oasis-core/go/common"
 	"github.com/oasisprotocol/oasis-core/go/common/crypto/hash"
+	"github.com/oasisprotocol/oasis-core/go/common/sgx/pcs"
 	"github.com/oasisprotocol/oasis-core/go/storage/mkvs"
 	"github.com/oasisprotocol/oasis-core/go/storage/mkvs/node"
 	"github.com/oasisprotocol/oasis-core/go/storage/mkvs/syncer"
@@ -95,6 +96,41 @@ func errClass(err error) string {
 		{"unused entries", "unused-entries"},
 		{"unexpected entry", "unexpected-entry"},
 		{"bad root", "bad-root"},
+	} {
+		if strings.Contains(m, p[0]) {
+			return p[1]
+		}
+	}
+	return "other:" + strings.ReplaceAll(m, " ", "_")
+}
+
+// quoteErrClass maps the errors of pcs.Quote.UnmarshalBinaryWithTrailing to the model's classes
+// (the Go code distinguishes them by message only).
+func quoteErrClass(err error) string {
+	m := err.Error()
+	for _, p := range [][2]string{
+		{"invalid quote length", "len"},
+		{"unsupported quote version", "version"},
+		{"data in reserved field", "reserved"},
+		{"unsupported TEE type", "tee"},
+		{"unsupported QE vendor", "vendor"},
+		{"invalid quote body length", "bodylen"},
+		{"malformed TDX attributes", "tdattr"},
+		{"unexpected trailing data", "trailing"},
+		{"unsupported attestation key type", "keytype"},
+		{"invalid ECDSA-P256 quote signature length", "siglen"},
+		{"invalid ECDSA-P256 quote signature certification data size", "v4size"},
+		{"unexpected certification data", "v4type"},
+		{"missing report body", "qeNoBody"},
+		{"missing report signature", "qeNoSig"},
+		{"missing authentication data size", "qeNoAuthSize"},
+		{"invalid authentication data size", "qeAuthSize"},
+		{"missing certification data type", "qeNoCdType"},
+		{"missing certification data size", "qeNoCdSize"},
+		{"invalid certification data size", "qeCdSize"},
+		{"invalid PPID certification data length", "ppidlen"},
+		{"bad X509 certificate in PCK chain", "pem"},
+		{"unsupported certification data type", "cdtype"},
 	} {
 		if strings.Contains(m, p[0]) {
 			return p[1]
@@ -258,6 +294,30 @@ func runImpl(op string, exact bool) (res implResult) {
 				}
 				return "", ""
 			}
+		case "quote":
+			// pcs.Quote.UnmarshalBinaryWithTrailing: the hand-written length-prefixed framing of an
+			// attestation quote (PEM/x509 of the certificate chain is outside the model).
+			data := unhx(w[2])
+			inLen = len(data)
+			var q pcs.Quote
+			n, err := q.UnmarshalBinaryWithTrailing(data, w[1] == "1")
+			if err != nil {
+				answer = "err " + quoteErrClass(err)
+				return
+			}
+			qs, ok := q.Signature().(*pcs.QuoteSignatureECDSA_P256)
+			if !ok {
+				answer = "err other:signature-type"
+				return
+			}
+			answer = fmt.Sprintf("ok %d %d %d %d", n, q.Header().Version(), uint32(q.Header().TeeType()),
+				uint16(qs.CertificationData().CertificationDataType()))
+			post = func() (string, string) {
+				if n > len(data) {
+					return "consumed-gt-len", fmt.Sprintf("consumed %d of %d", n, len(data))
+				}
+				return "", ""
+			}
 		case "proof":
 			v, err := strconv.ParseUint(w[1], 10, 16)
 			if err != nil {
@@ -313,7 +373,10 @@ func runImpl(op string, exact bool) (res implResult) {
 		res.sig, res.detail = "panic-"+kind, fmt.Sprintf("Go panic in %s: %s", kind, g.Panic)
 	case g.Elapsed > slowLimit:
 		res.sig, res.detail = "slow-"+kind, fmt.Sprintf("%s took %v on %d input bytes", kind, g.Elapsed, inLen)
-	case exact && !strings.HasPrefix(kind, "enc-") && kind != "consts" && kind != "proof" &&
+	case exact && kind == "quote" && g.Alloc > uint64(64*inLen+(1<<20)):
+		// quote: structs, the auth data copy, and PEM + x509 parsing of the certificate chain
+		res.sig, res.detail = "alloc-quote", fmt.Sprintf("quote decoding allocated %d bytes on %d input bytes", g.Alloc, inLen)
+	case exact && !strings.HasPrefix(kind, "enc-") && kind != "consts" && kind != "proof" && kind != "quote" &&
 		g.Alloc > uint64(allocFactor*inLen+allocSlack):
 		res.sig, res.detail = "alloc-"+kind, fmt.Sprintf("%s allocated %d bytes on %d input bytes", kind, g.Alloc, inLen)
 	case exact && kind == "proof" && g.Alloc > uint64(16*inLen+4096*nEntries+65536):
@@ -415,8 +478,9 @@ func verifyReal(v uint16, entries [][]byte) string {
 // ------------------------------------------------------------------------------- generators
 
 type gen struct {
-	r   *hlib.Rng
-	res *hlib.Result
+	r      *hlib.Rng
+	res    *hlib.Result
+	quotes bool
 }
 
 func (g *gen) key() []byte {
@@ -660,6 +724,90 @@ func (g *gen) mutateProof(v int, entries []string) (int, []string) {
 	return v, e
 }
 
+// ---- PCS quote seeds (framing model)
+
+var repoDir = func() string {
+	if d := os.Getenv("VERIF_REPO"); d != "" {
+		return d
+	}
+	return "/repo"
+}()
+
+// syntheticQuote builds a structurally valid quote with PPID certification data (no PEM): version
+// 3 or 4, SGX or TDX report body, authentication data of the given size.
+func syntheticQuote(version uint16, tdx bool, auth int, cdType uint16) []byte {
+	le16 := func(v uint16) []byte { return []byte{byte(v), byte(v >> 8)} }
+	le32 := func(v uint32) []byte { return []byte{byte(v), byte(v >> 8), byte(v >> 16), byte(v >> 24)} }
+	hdr := append(le16(version), le16(2)...)
+	tee := uint32(0)
+	if tdx {
+		tee = 0x81
+	}
+	hdr = append(hdr, le32(tee)...)
+	hdr = append(hdr, 0, 0, 0, 0)
+	hdr = append(hdr, pcs.QEVendorID_Intel...)
+	hdr = append(hdr, make([]byte, 20)...)
+	body := make([]byte, 384)
+	if tdx {
+		body = make([]byte, 584)
+	}
+	qe := make([]byte, 384+64)
+	qe = append(qe, le16(uint16(auth))...)
+	qe = append(qe, bytes.Repeat([]byte{0xa5}, auth)...)
+	qe = append(qe, le16(cdType)...)
+	qe = append(qe, le32(404)...)
+	qe = append(qe, bytes.Repeat([]byte{0x5a}, 404)...)
+	sig := make([]byte, 128)
+	if version == 4 {
+		sig = append(sig, le16(6)...)
+		sig = append(sig, le32(uint32(len(qe)))...)
+	}
+	sig = append(sig, qe...)
+	out := append(hdr, body...)
+	out = append(out, le32(uint32(len(sig)))...)
+	return append(out, sig...)
+}
+
+var quoteSeedsCache [][]byte
+
+// quoteSeeds: the repository's SGX and TDX test vectors (PEM chains) and synthetic PPID quotes.
+func quoteSeeds() [][]byte {
+	if quoteSeedsCache != nil {
+		return quoteSeedsCache
+	}
+	for _, f := range []string{"quote_v3_ecdsa_p256_pck_chain.bin", "quote_v4_tdx_ecdsa_p256.bin", "quote_v3_ecdsa_p256_eppid.bin",
+		"quote_v4_tdx_ecdsa_p256_out_of_date.bin", "quote_v4_tdx_ecdsa_p256_trailing.bin"} {
+		b, err := os.ReadFile(repoDir + "/go/common/sgx/pcs/testdata/" + f)
+		if err != nil {
+			panic(err)
+		}
+		quoteSeedsCache = append(quoteSeedsCache, b)
+	}
+	quoteSeedsCache = append(quoteSeedsCache, syntheticQuote(3, false, 32, 1), syntheticQuote(4, true, 32, 2), syntheticQuote(4, false, 0, 3),
+		syntheticQuote(3, false, 0, 5), syntheticQuote(3, false, 300, 7))
+	return quoteSeedsCache
+}
+
+func quoteOp(r *hlib.Rng, b []byte) string {
+	return fmt.Sprintf("quote %d %s", r.Intn(2), hx(b))
+}
+
+// quoteSweep: every length / type field of a quote, at every nesting level, set to every boundary
+// value (0, 1, around the remaining and total length, 2^15, 2^16, 2^31, 2^32-k), resized and
+// truncated tails: the two smallest repository vectors (one SGX, one TDX) and the synthetic quotes.
+func quoteSweep(r *hlib.Rng, res *hlib.Result) []string {
+	var ops []string
+	seeds := quoteSeeds()
+	for _, i := range []int{0, 1, 5, 6, 7, 8} {
+		sd := seeds[i]
+		for _, m := range codeclib.FieldSweep(sd, codeclib.QuoteLenFields(sd)) {
+			ops = append(ops, quoteOp(r, m.Data))
+			res.Count("quote-lenfield:" + m.What)
+		}
+	}
+	return ops
+}
+
 // genOps produces the ops of one case group: a valid seed object, its encodings fed to every
 // decoder, and `muts` single mutations of each encoding.
 func (g *gen) genOps(muts int) []string {
@@ -677,6 +825,24 @@ func (g *gen) genOps(muts int) []string {
 		}
 	}
 	switch k := g.r.Intn(100); {
+	case g.quotes && g.r.Chance(1, 12): // PCS quote framing
+		seeds := quoteSeeds()
+		sd := seeds[g.r.Intn(len(seeds))]
+		ops = append(ops, "quote 0 "+hx(sd), "quote 1 "+hx(sd))
+		for i := 0; i < muts; i++ {
+			m, n := sd, 1+g.r.Intn(2)
+			for j := 0; j < n; j++ {
+				var mk string
+				if g.r.Bool() {
+					m, mk = codeclib.MutateField(g.r, m, codeclib.QuoteLenFields(m))
+					mk = "quote-lenfield"
+				} else {
+					m, mk = codeclib.Mutate(g.r, m, seeds[g.r.Intn(len(seeds))], false)
+				}
+				g.res.Count("mut:" + mk)
+			}
+			ops = append(ops, quoteOp(g.r, m))
+		}
 	case k < 12: // keys and depths
 		key := g.key()
 		if g.r.Chance(1, 40) {
@@ -856,10 +1022,11 @@ func main() {
 	out := flag.String("out", "-", "result file")
 	replay := flag.String("replay", "", "replay file (one op per line)")
 	corpus := flag.String("corpus", "", "corpus dir, run first")
+	quotes := flag.Bool("quotes", true, "include the PCS quote framing (model OasisModel/Codec/Quote.lean)")
 	flag.Parse()
 
 	res := hlib.NewResult("codecdrv", *seed)
-	res.Rule = "one case = one operation on one byte string (decode by Key/Depth/LeafNode/InternalNode/node.UnmarshalBinary, proof verification for versions 0/1, or an encoder call); seeds are random well-formed and ill-formed values marshalled by the real encoders (full and compact V0/V1), proofs from random trees, from the real tree+ProofBuilder, and left spines of 125..132 and 300..2300 nodes; each seed is followed by single mutations (bit flips, interesting bytes, 16/32/64-bit length windows incl. huge and near-remaining-length values, truncated tails, extensions around 64 bytes, deletions, insertions, duplications, splices; for proofs also entry drop/dup/append/nil/empty/swap/truncate and version changes); non-trivial = accepted by the implementation; distinct by op text"
+	res.Rule = "one case = one operation on one byte string (decode by Key/Depth/LeafNode/InternalNode/node.UnmarshalBinary, proof verification for versions 0/1, or an encoder call); seeds are random well-formed and ill-formed values marshalled by the real encoders (full and compact V0/V1), proofs from random trees, from the real tree+ProofBuilder, and left spines of 125..132 and 300..2300 nodes; each seed is followed by single mutations (bit flips, interesting bytes, 16/32/64-bit length windows incl. huge and near-remaining-length values, truncated tails, extensions around 64 bytes, deletions, insertions, duplications, splices; for proofs also entry drop/dup/append/nil/empty/swap/truncate and version changes); `quote` ops: pcs.Quote.UnmarshalBinaryWithTrailing (both trailing modes) on the repository's SGX/TDX vectors and synthetic PPID quotes, a deterministic sweep of every length/type field at every nesting level over the boundary values (0, 1, around remaining/total length, 2^15, 2^16, 2^31-k, 2^32-k), resized and truncated tails, and random field / byte mutations; non-trivial = accepted by the implementation; distinct by op text"
 	res.Explanation = "CORRESPONDENCE (ties the Lean model of the hand-written decoders to the Go code) plus spec-on-implementation (consumed<=len, canonical re-marshal, allocation<=3*len+4096, no panic/hang)"
 	wd := codeclib.StartWatchdog(20*time.Second, 2<<30, func(c, reason string) {
 		if len(c) > 4000 {
@@ -908,7 +1075,7 @@ func main() {
 	}
 
 	rng := hlib.NewRng(*seed)
-	g := &gen{r: rng, res: res}
+	g := &gen{r: rng, res: res, quotes: *quotes}
 	seen := map[uint64]bool{}
 	accepted := map[uint64]bool{}
 	count := func(op, class string) {
@@ -929,6 +1096,17 @@ func main() {
 		add(checkOps(batch, true, count, wd), batchSeed, true)
 		batch = batch[:0]
 		batchSeed = rng.Seed()
+	}
+	if *quotes {
+		for _, op := range quoteSweep(rng.Fork(), res) {
+			res.Cases++
+			res.Ops++
+			batch = append(batch, op)
+			if len(batch) >= 500 {
+				flush()
+			}
+		}
+		flush()
 	}
 	for i := 0; i < *cases && len(res.Failures) < 5; i++ {
 		ops := g.genOps(*muts)
